@@ -205,6 +205,22 @@ theorem monoRows_of_monoPaths {n : Nat} {D : Dendro α} (h : MonoPaths n D = tru
     | none => simp [hd] at h1
     | some rc => exact ⟨rc, rfl, by simpa [hd] using h1⟩
 
+/-- `MonoRows` for all rows gives the executable `MonoPaths` -/
+theorem monoPaths_of_monoRows_gen {n : Nat} {D : Dendro α} (h : MonoRows n D D) : MonoPaths n D = true := by
+  unfold MonoPaths
+  rw [List.all_eq_true]
+  intro r hr
+  simp only [Bool.and_eq_true]
+  constructor
+  · by_cases hi : r.i < n
+    · simp [hi]
+    · obtain ⟨rc, hrc, hle⟩ := h r hr r.i (Or.inl rfl) (by omega)
+      simp [hi, hrc, hle]
+  · by_cases hj : r.j < n
+    · simp [hj]
+    · obtain ⟨rc, hrc, hle⟩ := h r hr r.j (Or.inr rfl) (by omega)
+      simp [hj, hrc, hle]
+
 /-- on a valid dendrogram with monotone heights `cut_straight`'s loop ends with exactly
     `n - #{rows below the cut}` clusters -/
 theorem mergeLoop_exact {n : Nat} {cut : Option α} {D : Dendro α} {st : Dict (List Nat)}
